@@ -61,6 +61,13 @@ def handleMint (st : IssueSt) : List String → Option (IssueSt × String)
       let b := st.ms.bank
       let b' := (b.setBal a rowan (b.bal a rowan + amt)).setSup rowan (b.sup rowan + amt)
       some ({ st with ms := { st.ms with bank := b' } }, "ok")
+  | ["mint.bankparams", _default, _rowan] =>
+      -- bank SendEnabled parameters: not an input of the model (they govern MsgSend / MsgMultiSend only)
+      some (st, "ok")
+  | ["chk", "c20.minteco", _tag, cPrev, cNow, ecoPrev, ecoNow, modPrev, modNow] => do
+      let cPrev ← parseNat cPrev; let cNow ← parseNat cNow; let ecoPrev ← parseNat ecoPrev; let ecoNow ← parseNat ecoNow
+      let modPrev ← parseNat modPrev; let modNow ← parseNat modNow
+      some (st, toString (Sif.Spec.C20.mintToEcoOK cPrev cNow ecoPrev ecoNow modPrev modNow))
   | ["mint.chain", _id] =>
       -- the chain id of the block header: not an input of the model (fact `mint_amount_from_constant`)
       some (st, "ok")
